@@ -57,6 +57,7 @@ type Machine struct {
 	observes []observed
 	lastSite string
 	expects  []string
+	inLibSig bool
 }
 
 type observed struct {
@@ -70,6 +71,7 @@ type pathEvent struct {
 	label  string
 	detail string
 	model  []drawVal
+	realised []drawVal // model patched with real keys/signatures (see realise.go)
 }
 
 type drawVal struct {
@@ -1096,6 +1098,13 @@ func (m *Machine) doCall(in *ssa.Call, fr *frame) Value {
 				return m.strConst(e.msg)
 			}
 			m.end("unsupported", "method "+c.Method.Name()+" on stub error")
+		}
+		if sv, ok := recv.val.(*StubVerifier); ok {
+			var a []Value
+			for _, x := range c.Args {
+				a = append(a, m.eval(x, fr))
+			}
+			return m.verifierInvoke(sv, c.Method.Name(), a)
 		}
 		if _, ok := recv.val.(Opaque); ok {
 			m.end("unsupported", "invoke on opaque value: "+c.Method.Name())
